@@ -689,6 +689,15 @@ pub fn c09_clone_resume(s: &State) -> Vec<Failure> {
                                 break;
                             }
                         }
+                        // fused: once exhausted, the iterator stays exhausted
+                        if k == full.len() {
+                            let mut it = mk_at(k);
+                            let after: Vec<_> = (0..3).map(|_| it.next()).collect();
+                            if after.iter().any(|x| x.is_some()) {
+                                bad = Some((k, format!("polled again after the end it yields {:?}", after), "[]".to_string()));
+                                break;
+                            }
+                        }
                         let (lo, hi) = mk_at(k).size_hint();
                         if lo > rest.len() || hi.map(|h| h < rest.len()).unwrap_or(false) {
                             bad = Some((k, format!("size_hint() = ({lo}, {hi:?})"), format!("{:?}", rest)));
@@ -717,6 +726,128 @@ pub fn c09_clone_resume(s: &State) -> Vec<Failure> {
         check!("reverse_traverse", id.reverse_traverse(&s.arena), 2 * fuel);
     }
     out
+}
+
+/// C10 (observer): after f front pulls and b back pulls, every way of consuming the rest agrees with
+/// the remaining middle of the forward sequence: count, last, fold (for_each/sum/collect go through
+/// it), rfold via rev(), nth, nth_back, size_hint.
+pub fn c10_consumers(s: &State) -> Vec<Failure> {
+    let mut out = Vec::new();
+    let e = Expected { m: &s.model, cur: &s.cur };
+    for x in s.model.live_slots() {
+        let id = s.cur[x];
+        let class = s.model.position(x);
+        for which in 0..3 {
+            let (name, fwd) = match which {
+                0 => ("children", e.children(x)),
+                1 => ("preceding_siblings", e.preceding(x)),
+                _ => ("following_siblings", e.following(x)),
+            };
+            let l = fwd.len();
+            let r = guarded(|| {
+                let mut bad: Option<String> = None;
+                'outer: for f in 0..=l {
+                    for b in 0..=(l - f) {
+                        let rest: Vec<NodeId> = fwd[f..l - b].to_vec();
+                        let probes = match which {
+                            0 => ConsumerProbe::all_at(|| id.children(&s.arena), f, b),
+                            1 => ConsumerProbe::all_at(|| id.preceding_siblings(&s.arena), f, b),
+                            _ => ConsumerProbe::all_at(|| id.following_siblings(&s.arena), f, b),
+                        };
+                        if let Some(why) = probes.disagreement(&rest) {
+                            bad = Some(format!("after {f} front and {b} back pulls the rest is [{}], but {why}", ids_txt(&rest)));
+                            break 'outer;
+                        }
+                    }
+                }
+                bad
+            });
+            if let Ok(Some(why)) = r {
+                out.push(fail(C10, "double-ended", false, name, class, "consumer-disagrees-after-back-pulls",
+                    format!("{name}({}): {why}; arena: {}", x + 1, fmt_obs(&s.obs))));
+            }
+        }
+    }
+    out
+}
+
+/// Results of every consuming method on one partly consumed iterator (fresh copies each).
+pub struct ConsumerProbe {
+    count: usize,
+    last: Option<NodeId>,
+    fold: Vec<NodeId>,
+    rfold: Vec<NodeId>,
+    for_each: Vec<NodeId>,
+    nth: Vec<Option<NodeId>>,
+    nth_back: Vec<Option<NodeId>>,
+    hint: (usize, Option<usize>),
+}
+
+impl ConsumerProbe {
+    pub fn all_at<I, F>(mk: F, f: usize, b: usize) -> ConsumerProbe
+    where
+        I: DoubleEndedIterator<Item = NodeId>,
+        F: Fn() -> I,
+    {
+        let at = || {
+            let mut it = mk();
+            for _ in 0..f {
+                it.next();
+            }
+            for _ in 0..b {
+                it.next_back();
+            }
+            it
+        };
+        let mut fe = Vec::new();
+        at().for_each(|x| fe.push(x));
+        ConsumerProbe {
+            count: at().count(),
+            last: at().last(),
+            fold: at().fold(Vec::new(), |mut v, x| {
+                v.push(x);
+                v
+            }),
+            rfold: at().rfold(Vec::new(), |mut v, x| {
+                v.push(x);
+                v
+            }),
+            for_each: fe,
+            nth: (0..4).map(|k| at().nth(k)).collect(),
+            nth_back: (0..4).map(|k| at().nth_back(k)).collect(),
+            hint: at().size_hint(),
+        }
+    }
+    pub fn disagreement(&self, rest: &[NodeId]) -> Option<String> {
+        let rev: Vec<NodeId> = rest.iter().rev().copied().collect();
+        if self.count != rest.len() {
+            return Some(format!("count() = {}", self.count));
+        }
+        if self.last != rest.last().copied() {
+            return Some(format!("last() = {}", fmt_id(self.last)));
+        }
+        if self.fold != rest {
+            return Some(format!("fold() visits [{}]", ids_txt(&self.fold)));
+        }
+        if self.for_each != rest {
+            return Some(format!("for_each() visits [{}]", ids_txt(&self.for_each)));
+        }
+        if self.rfold != rev {
+            return Some(format!("rfold() visits [{}]", ids_txt(&self.rfold)));
+        }
+        for k in 0..4 {
+            if self.nth[k] != rest.get(k).copied() {
+                return Some(format!("nth({k}) = {}", fmt_id(self.nth[k])));
+            }
+            if self.nth_back[k] != rev.get(k).copied() {
+                return Some(format!("nth_back({k}) = {}", fmt_id(self.nth_back[k])));
+            }
+        }
+        if self.hint.0 > rest.len() || self.hint.1.map(|h| h < rest.len()).unwrap_or(false) {
+            return Some(format!("size_hint() = {:?}", self.hint));
+        }
+        None
+    }
 }
 
 pub fn c10(s: &State, pulls_counter: &mut u64) -> Vec<Failure> {
@@ -1339,6 +1470,7 @@ pub fn judge_state(
     }
     if t & C10 != 0 {
         out.extend(c10(s, &mut ctr.pulls));
+        out.extend(c10_consumers(s));
     }
     if t & C11 != 0 {
         out.extend(c11(s));
@@ -1363,5 +1495,92 @@ pub fn judge_state(
     // c17_par is evaluated by the explorer on its main thread: calling into another rayon pool
     // from a worker of this pool makes the worker run other tasks while it waits (unbounded nesting)
     let _ = (Outcome::Unit, ops::Op::NewNode);
+    out
+}
+
+/// Counters narrower than usize (nesting depth, sibling count): a chain `n` deep and a node `n`
+/// wide, built with plain API calls and traversed by every iterator; expectations are arithmetic.
+#[allow(deprecated)]
+pub fn deep_shapes(n: usize) -> Vec<Failure> {
+    let mut out = Vec::new();
+    let mut bad = |what: &str, detail: String| {
+        out.push(fail(C09 | C02, "deep-shapes", false, what, "-", "wrong-length-or-order", detail));
+    };
+    let r = guarded(|| {
+        let mut msgs: Vec<(String, String)> = Vec::new();
+        // ---- chain: 0 <- 1 <- 2 ... (each the only child of the previous)
+        let mut a: Arena<u32> = Arena::new();
+        let root = a.new_node(0);
+        let mut ids = vec![root];
+        for k in 1..n {
+            let c = ids[k - 1].append_value(k as u32, &mut a);
+            ids.push(c);
+        }
+        let leaf = *ids.last().unwrap();
+        let cnt = |x: usize, want: usize, what: &str, msgs: &mut Vec<(String, String)>| {
+            if x != want {
+                msgs.push((what.to_string(), format!("{what} on a chain of depth {n} yields {x} items, expected {want}")));
+            }
+        };
+        cnt(root.descendants(&a).count(), n, "descendants(root)", &mut msgs);
+        cnt(root.traverse(&a).count(), 2 * n, "traverse(root)", &mut msgs);
+        cnt(root.reverse_traverse(&a).count(), 2 * n, "reverse_traverse(root)", &mut msgs);
+        cnt(leaf.ancestors(&a).count(), n, "ancestors(leaf)", &mut msgs);
+        cnt(leaf.predecessors(&a).count(), n, "predecessors(leaf)", &mut msgs);
+        if root.descendants(&a).last() != Some(leaf) || root.descendants(&a).nth(n / 2) != Some(ids[n / 2]) {
+            msgs.push(("descendants(root)".into(), format!("descendants on a chain of depth {n} does not end at the leaf / pass the middle node")));
+        }
+        // balanced Start/End and agreement with edge stepping
+        let mut depth = 0i64;
+        let mut maxd = 0i64;
+        let mut e = Some(NodeEdge::Start(root));
+        let mut steps = 0usize;
+        for edge in root.traverse(&a) {
+            if Some(edge) != e {
+                msgs.push(("traverse(root)".into(), format!("traverse and next_traverse stepping disagree at step {steps} on a chain of depth {n}")));
+                break;
+            }
+            match edge {
+                NodeEdge::Start(_) => depth += 1,
+                NodeEdge::End(_) => depth -= 1,
+            }
+            maxd = maxd.max(depth);
+            steps += 1;
+            e = edge.next_traverse(&a);
+        }
+        if depth != 0 || maxd != n as i64 {
+            msgs.push(("traverse(root)".into(), format!("traverse on a chain of depth {n}: {steps} edges, final nesting {depth}, maximal nesting {maxd}")));
+        }
+        // a middle start node stays inside its subtree
+        let mid = ids[n / 2];
+        cnt(mid.descendants(&a).count(), n - n / 2, "descendants(middle)", &mut msgs);
+        // ---- wide: one parent, n children
+        let mut w: Arena<u32> = Arena::new();
+        let p = w.new_node(0);
+        let mut kids = Vec::new();
+        for k in 0..n {
+            kids.push(p.append_value(k as u32 + 1, &mut w));
+        }
+        cnt(p.children(&w).count(), n, "children(parent)", &mut msgs);
+        cnt(p.children(&w).rev().count(), n, "children(parent).rev()", &mut msgs);
+        cnt(p.reverse_children(&w).count(), n, "reverse_children(parent)", &mut msgs);
+        cnt(kids[0].following_siblings(&w).count(), n, "following_siblings(first)", &mut msgs);
+        cnt(kids[n - 1].preceding_siblings(&w).count(), n, "preceding_siblings(last)", &mut msgs);
+        cnt(kids[0].following_siblings(&w).rev().count(), n, "following_siblings(first).rev()", &mut msgs);
+        cnt(p.descendants(&w).count(), n + 1, "descendants(parent)", &mut msgs);
+        cnt(p.traverse(&w).count(), 2 * n + 2, "traverse(parent)", &mut msgs);
+        if p.children(&w).last() != Some(kids[n - 1]) || p.children(&w).nth(n - 2) != Some(kids[n - 2]) || p.children(&w).next_back() != Some(kids[n - 1]) {
+            msgs.push(("children(parent)".into(), format!("children of a node with {n} children: last/nth/next_back disagree with the order of insertion")));
+        }
+        msgs
+    });
+    match r {
+        Ok(msgs) => {
+            for (w, d) in msgs {
+                bad(&w, d);
+            }
+        }
+        Err(m) => bad("any", format!("building or traversing a chain / a wide node of {n} nodes panicked: {m}")),
+    }
     out
 }
